@@ -2061,11 +2061,17 @@ event_base_loop(struct event_base *base, int flags)
 
 		/* Invoke prepare watchers before polling for events */
 		prepare_info.timeout = tv_p;
-		TAILQ_FOREACH(watcher, &base->watchers[EVWATCH_PREPARE], next) {
+		for (watcher = TAILQ_FIRST(&base->watchers[EVWATCH_PREPARE]);
+		    watcher != NULL; ) {
+			base->watcher_running = watcher;
 			EVBASE_RELEASE_LOCK(base, th_base_lock);
 			(*watcher->callback.prepare)(watcher, &prepare_info, watcher->arg);
 			EVBASE_ACQUIRE_LOCK(base, th_base_lock);
+			/* The callback may have freed its own watcher. */
+			watcher = base->watcher_running ?
+			    TAILQ_NEXT(base->watcher_running, next) : base->watcher_next;
 		}
+		base->watcher_running = base->watcher_next = NULL;
 
 		clear_time_cache(base);
 
@@ -2082,11 +2088,17 @@ event_base_loop(struct event_base *base, int flags)
 
 		/* Invoke check watchers after polling for events, and before
 		 * processing them */
-		TAILQ_FOREACH(watcher, &base->watchers[EVWATCH_CHECK], next) {
+		for (watcher = TAILQ_FIRST(&base->watchers[EVWATCH_CHECK]);
+		    watcher != NULL; ) {
+			base->watcher_running = watcher;
 			EVBASE_RELEASE_LOCK(base, th_base_lock);
 			(*watcher->callback.check)(watcher, &check_info, watcher->arg);
 			EVBASE_ACQUIRE_LOCK(base, th_base_lock);
+			/* The callback may have freed its own watcher. */
+			watcher = base->watcher_running ?
+			    TAILQ_NEXT(base->watcher_running, next) : base->watcher_next;
 		}
+		base->watcher_running = base->watcher_next = NULL;
 
 		timeout_process(base);
 
